@@ -208,7 +208,11 @@ func (t *NEP17Transfer) DecodeBinary(r *io.BinReader) {
 	r.ReadBytes(t.Counterparty[:])
 	t.Block = r.ReadU32LE()
 	t.Timestamp = r.ReadU64LE()
-	amount := r.ReadVarBytes(bigint.MaxBytesLen)
+	// The sender's record holds the negated amount and -(-2^255) takes 33 bytes.
+	amount := r.ReadVarBytes(bigint.MaxBytesLen + 1)
+	if r.Err != nil {
+		return
+	}
 	t.Amount = bigint.FromBytes(amount)
 }
 
